@@ -1149,6 +1149,10 @@ def normalise_ifexp(tree):
             for i, st in enumerate(stmts):
                 if isinstance(st, ast.Assign) and len(st.targets) == 1 and isinstance(st.targets[0], ast.Name) and isinstance(st.value, ast.IfExp):
                     mk = lambda v, st=st: ast.copy_location(ast.Assign(targets=[ast.Name(id=st.targets[0].id, ctx=ast.Store())], value=v), st)
+                elif isinstance(st, ast.Assign) and len(st.targets) == 1 and isinstance(st.targets[0], (ast.Tuple, ast.List)) and isinstance(st.value, ast.IfExp) \
+                        and all(isinstance(e_, ast.Name) for e_ in st.targets[0].elts):
+                    # a, b = X if C else Y
+                    mk = lambda v, st=st: ast.copy_location(ast.Assign(targets=[_clone(st.targets[0])], value=v), st)
                 elif isinstance(st, ast.Return) and isinstance(st.value, ast.IfExp):
                     mk = lambda v, st=st: ast.copy_location(ast.Return(value=v), st)
                 elif isinstance(st, ast.Expr) and isinstance(st.value, ast.Call) and pure(st.value.func) and not any(k.arg is None for k in st.value.keywords) \
